@@ -7,9 +7,9 @@
 // digest -> origin peers that, like the real one, returns fresh PeerInfo objects and an error when
 // there are none).
 //
-// cfg.strict: the few histories with strict=true are validated against the property as stated
-// (never hand the announcer to itself); the unchanged tree fails them (known finding F26).  The
-// bulk (strict=false) is validated against every other clause, see Handout.tla.
+// Every history is validated against the property as stated, including "never hand the announcer to
+// itself" (finding F26, repaired in /repo commit 483b8c2; cfg.strict=true and the selfin field remain in
+// the records because the signature in known_findings.d/C26.json refers to them).
 package c26
 
 import (
@@ -59,16 +59,12 @@ func (o origins) GetOrigins(d core.Digest) ([]*core.PeerInfo, error) {
 
 func run(c *eng.Ctx) error {
 	w := trk.NewWorld(nh, np, na, no)
-	nBulk, nStrict := c.N(90, 1500), c.N(3, 8)
-	c.Traces(nBulk+nStrict, func(t int, rng *rand.Rand) {
-		strict := t >= nBulk
+	c.Traces(c.N(93, 1508), func(t int, rng *rand.Rand) {
+		const strict = true
 		ttl := ttls[rng.Intn(len(ttls))]
 		lim := limits[rng.Intn(len(limits))]
-		if strict {
-			lim = limits[2+rng.Intn(4)]
-		}
 		pol := []string{"default", "completeness"}[rng.Intn(2)]
-		if strict || rng.Intn(3) > 0 {
+		if rng.Intn(3) > 0 {
 			pol = "completeness"
 		}
 		og := origins{}
